@@ -45,7 +45,25 @@ impl Bench {
     }
 }
 
+/// Nesting depth of a JSON value (iterative: the values in question can be very deep).
+fn value_depth(v: &Value) -> usize {
+    let mut max = 0;
+    let mut stack: Vec<(&Value, usize)> = vec![(v, 1)];
+    while let Some((v, d)) = stack.pop() {
+        max = max.max(d);
+        match v {
+            Value::Array(a) => stack.extend(a.iter().map(|x| (x, d + 1))),
+            Value::Object(o) => stack.extend(o.values().map(|x| (x, d + 1))),
+            _ => {}
+        }
+    }
+    max
+}
+
 pub fn case_json(tag: &str, kind: &str, text: &str, e: Value, ctx: Option<&MCtx>, extra: Value) -> Value {
+    // a replay file must be readable again: serde_json refuses documents nested deeper than 128,
+    // so a very deep program tree is left out (the text is kept; replay re-runs the check)
+    let e = if value_depth(&e) > 100 { json!({"omitted": "program tree nested too deeply for a JSON file; see `text`"}) } else { e };
     json!({
         "universe": tag,
         "kind": kind,
